@@ -27,8 +27,10 @@ def graph_lines(nv, links, attrs=None, classes=None):
         lines.append("vertex %s%s" % (c, "" if a is None else (" a=" + a) if isinstance(a, str) else (" a=0:%d" % a)))
     for (k, a, b) in links:
         lines.append("edge %s %s %s" % (k, "-" if a is None else "V%d" % a, "-" if b is None else "V%d" % b))
-    # universes: all, and all-but-i
+    # universes: all, and all-but-i; the first one is governed by laws that DECLARE multipath=False (nothing enforces them)
     lines.append("universe m=%s" % ",".join("V%d" % i for i in range(nv)))
+    lines.append("lawset 2")
+    lines.append("setlaws V%d W1" % nv)
     for i in range(nv):
         ms = ",".join("V%d" % j for j in range(nv) if j != i)
         lines.append("universe" + ((" m=" + ms) if ms else ""))
@@ -175,9 +177,9 @@ class TravBase(Check):
                     qs += ["%s %s V0 0 1 - - list" % (t, uni), "%s %s V%d 1 1 - - gen" % (t, uni, hang - 3)]
         yield run_script(real, lines + qs)
         if not quick or rng.random() < 0.5:
-            # --- a chain 850 levels deep (the recursive forms still manage it) with links from its far end back
+            # --- a chain 880 levels deep (the recursive forms still manage it) with links from its far end back
             #     to vertices listed hundreds of levels earlier, and a branch hanging below that depth
-            n = 850
+            n = 880
             lines = ["reset"] + ["vertex V"] * (n + 6)
             for i in range(n - 1):
                 lines.append("edge D V%d V%d" % (i, i + 1))
@@ -213,6 +215,9 @@ class TravBase(Check):
         qs = []
         for t in kinds:
             qs += ["%s - V0 0 1 - - list" % t, "%s V%d V1 0 1 - - list" % (t, nv)]
+        if not self.searches:
+            # a BALANCED swap of members (one out, one in: the size of the universe is what it was), then the same again
+            qs += ["urem V%d V5" % nv, "uadd V%d V3" % nv] + ["%s V%d V1 0 1 - - list" % (t, nv) for t in kinds]
         yield run_script(real, lines + qs)
 
     def history_world(self, real, rng, quick):
